@@ -134,16 +134,6 @@ Qed.
 Lemma history_lazy_mdat ops : forall fr cs fr',
   forallb is_lazy ops = true -> run_ops fr ops = (cs, Some fr') ->
   md_data (fr_mdat fr') = md_data (fr_mdat fr) /\ md_parts (fr_mdat fr') = md_parts (fr_mdat fr) /\
-  md_lazy (fr_mdat fr') = u64 (md_lazy (fr_mdat fr) + sizes_sum (flat_map op_samples (accepted cs ops))).
-Proof.
-  induction ops as [|o ops IH]; intros fr cs fr' Hf H; cbn [run_ops] in H.
-  - injection H as <- <-. cbn [accepted flat_map]. unfold sizes_sum. cbn [map sumN]. rewrite N.add_0_r.
-    repeat split. (* u64 of an arbitrary lazy size: only equal below 2^64; callers start from 0 *)
-    Abort.
-
-Lemma history_lazy_mdat ops : forall fr cs fr',
-  forallb is_lazy ops = true -> run_ops fr ops = (cs, Some fr') ->
-  md_data (fr_mdat fr') = md_data (fr_mdat fr) /\ md_parts (fr_mdat fr') = md_parts (fr_mdat fr) /\
   u64 (md_lazy (fr_mdat fr')) = u64 (md_lazy (fr_mdat fr) + sizes_sum (flat_map op_samples (accepted cs ops))) /\
   (md_lazy (fr_mdat fr) < 18446744073709551616 -> md_lazy (fr_mdat fr') < 18446744073709551616).
 Proof.
